@@ -117,6 +117,9 @@ pub struct StreamCfg {
     /// percent of episodes that are a start frame announcing a huge packet, a few
     /// continuation frames, and then nothing more (abandoned)
     pub giant_pct: u32,
+    /// percent of episodes that are an over-long "packet": frame ids continue past 4095
+    /// by (ab)using the reserved bit next to the id's high nibble
+    pub overlong_pct: u32,
 }
 
 fn src_packet(sim: &Sim, cfg: &StreamCfg) -> Packet {
@@ -178,6 +181,10 @@ pub fn episode(sim: &Sim, cfg: &StreamCfg, tag: Tag, out: &mut Vec<Item>) -> Res
             });
         }
         sim.count("abandoned_giant_announcement");
+        return Ok(());
+    }
+    if cfg.overlong_pct > 0 && sim.chance(cfg.overlong_pct) {
+        overlong_episode(sim, cfg, tag, out);
         return Ok(());
     }
     let p = src_packet(sim, cfg);
@@ -465,6 +472,39 @@ pub fn episode(sim: &Sim, cfg: &StreamCfg, tag: Tag, out: &mut Vec<Item>) -> Res
     Ok(())
 }
 
+/// A hostile sender continues a packet past the 4096-frame limit: 13-bit frame ids whose
+/// bit 12 is put into the reserved bit next to the id's high nibble (USART header bit 4,
+/// CAN identifier bit 20). A receiver must never take that bit as part of the id.
+fn overlong_episode(sim: &Sim, cfg: &StreamCfg, tag: Tag, out: &mut Vec<Item>) {
+    let total: u32 = sim.pick(&[8192u32, 4200, 6000]);
+    let addr = cfg.addrs[sim.draw(3) as usize];
+    let not_error = sim.chance(70);
+    for i in 0..total {
+        let id13 = if i == 0 { total - 1 } else { i };
+        let start = i == 0;
+        let mut data = [0x66u8; 8];
+        data[0] = id13 as u8;
+        let unit = if cfg.kind.is_bytes() {
+            let mut raw = raw_usart_image(not_error, start, true, (id13 & 0x0fff) as u16, addr, 8, &data);
+            raw[0] |= (((id13 >> 12) & 1) as u8) << 4;
+            Unit::Body(cobs_encode(&raw))
+        } else {
+            let id = ((not_error as u32) << 28)
+                | ((start as u32) << 27)
+                | (1 << 26)
+                | (((id13 >> 12) & 1) << 20)
+                | (((id13 >> 8) & 0xf) << 16)
+                | addr as u32;
+            Unit::Can(CanUnit::Frame(bxcan::Frame::new_data(
+                bxcan::ExtendedId::new(id).unwrap(),
+                bxcan::Data::new(&data).unwrap(),
+            )))
+        };
+        out.push(Item { unit, tag, what: "overlong" });
+    }
+    sim.count("overlong_packet_with_reserved_bit");
+}
+
 /// A complete, well-formed packet as items.
 pub fn clean_packet_items(kind: LinkKind, p: &Packet, tag: Tag, out: &mut Vec<Item>) -> Result<(), EncodeFailed> {
     for rf in frames_of(p)? {
@@ -480,6 +520,8 @@ pub fn clean_packet_items(kind: LinkKind, p: &Packet, tag: Tag, out: &mut Vec<It
 pub struct Loaded {
     pub frame_tags: Vec<Tag>,
     pub frame_announce: Vec<u32>,
+    /// units that are not frames at all (a CAN overrun report)
+    pub frame_is_frame: Vec<bool>,
     /// first wire unit of the first probe frame
     pub probe_start_unit: usize,
 }
@@ -489,6 +531,7 @@ pub fn load(sim: &Sim, wire: &WireRef, items: &[Item]) -> Loaded {
     let mut l = Loaded {
         frame_tags: Vec::new(),
         frame_announce: Vec::new(),
+        frame_is_frame: Vec::new(),
         probe_start_unit: usize::MAX,
     };
     for it in items {
@@ -506,11 +549,13 @@ pub fn load(sim: &Sim, wire: &WireRef, items: &[Item]) -> Loaded {
                 w.bytes.push(b.len() as u8);
                 w.bytes.extend_from_slice(b);
                 l.frame_tags.push(it.tag);
+                l.frame_is_frame.push(true);
                 l.frame_announce.push(announce_usart_body(b));
             }
             Unit::Can(u) => {
                 w.cframes.push(u.clone());
                 l.frame_tags.push(it.tag);
+                l.frame_is_frame.push(matches!(u, CanUnit::Frame(_)));
                 l.frame_announce.push(match u {
                     CanUnit::Frame(f) => announce_can(f),
                     CanUnit::Overrun => 0,
@@ -558,6 +603,7 @@ fn draw_cfg(sim: &Sim, kind: LinkKind, tier: Tier, long: bool) -> StreamCfg {
         huge_pct,
         fault_pct: sim.pick(&[60u32, 100, 30, 10]),
         giant_pct: if long { sim.pick(&[2u32, 0, 10]) } else { sim.pick(&[0u32, 0, 5]) },
+        overlong_pct: 0,
     }
 }
 
@@ -837,6 +883,14 @@ pub fn run_c19(sim: &Sim, prop: &str, tier: Tier) -> Outcome {
     if clean_only {
         cfg.fault_pct = 0;
         cfg.giant_pct = 0;
+    } else {
+        // swarm: some runs contain over-long packets, some have a device that fails reads
+        if sim.chance(4) {
+            cfg.overlong_pct = 2;
+        }
+        if kind.is_bytes() && sim.chance(25) {
+            wire.borrow_mut().policy.hard_err_pm = sim.pick(&[3u32, 20]);
+        }
     }
     let n_eps = match tier {
         Tier::Quick => 20 + sim.draw(sim.pick(&[100u32, 400, 30])),
@@ -877,6 +931,7 @@ pub fn run_c19(sim: &Sim, prop: &str, tier: Tier) -> Outcome {
     let soft_budget = 4 * n_frames + 300;
     let hard_budget = soft_budget + 2 * n_frames + 50;
     let mut max_between: isize = 0;
+    let mut accepted_since_boundary: usize = 0;
     loop {
         let out = poll(sim, "rx", &mut rx, &wire);
         polls += 1;
@@ -889,13 +944,39 @@ pub fn run_c19(sim: &Sim, prop: &str, tier: Tier) -> Outcome {
             Other,
         }
         let (class, payload_len, shown) = match &out.res {
-            Err(Crash::Blocked) => return Outcome::Foreign("C06.noblock", "receiver blocked".to_string()),
-            Err(Crash::Panic(m)) => return Outcome::Foreign("C06.total", format!("receiver panicked: {}", m)),
+            Err(c) => {
+                // the frame-buffer clause is judged even for a call that never returned
+                let allowed_single = 1024isize.max(96 * announced as isize);
+                if out.max_single > allowed_single {
+                    return fail(
+                        prop,
+                        "C19.frame",
+                        format!(
+                            "a single allocation of {} bytes was made during a poll that then {} (largest announcement in flight {}): beyond the 255 bytes a link frame's length byte can announce",
+                            out.max_single,
+                            if matches!(c, Crash::Blocked) { "never returned" } else { "panicked" },
+                            announced
+                        ),
+                        sig("frame-buffer"),
+                    );
+                }
+                return match c {
+                    Crash::Blocked => Outcome::Foreign("C06.noblock", "receiver blocked".to_string()),
+                    Crash::Panic(m) => Outcome::Foreign("C06.total", format!("receiver panicked: {}", m)),
+                };
+            }
             Ok(Ok(p)) => (Class::Boundary, p.data.len(), "Ok(packet)"),
             Ok(Err(InterfaceError::BuilderError(_))) => (Class::Boundary, 0, "Err(BuilderError)"),
             Ok(Err(InterfaceError::NoPacketReceived)) => (Class::Nothing, 0, "NoPacketReceived"),
             Ok(Err(_)) => (Class::Other, 0, "Err(other)"),
         };
+        // frames taken without any result were accepted into the packet under reassembly
+        let upto = match class {
+            Class::Nothing => out.frames_after,
+            _ => out.frames_after.saturating_sub(1).max(out.frames_before),
+        };
+        let silently = (out.frames_before..upto.min(n_frames)).filter(|i| loaded.frame_is_frame[*i]).count();
+        accepted_since_boundary += silently;
         let quiescent = matches!(class, Class::Nothing) && wire.borrow().in_flight() == 0;
         let stuck = matches!(class, Class::Nothing) && out.cursor_after == out.cursor_before && wire.borrow().drain && !quiescent;
         let max_single = out.max_single;
@@ -940,6 +1021,7 @@ pub fn run_c19(sim: &Sim, prop: &str, tier: Tier) -> Outcome {
                     sim.probe("boundary_after_multi_frame");
                 }
                 announced = 0;
+                accepted_since_boundary = 0;
             }
             _ => {
                 let bound = fresh + 256 + 96 * announced as isize;
@@ -958,6 +1040,19 @@ pub fn run_c19(sim: &Sim, prop: &str, tier: Tier) -> Outcome {
                             n_frames
                         ),
                         sig("held-between-polls"),
+                    );
+                }
+                // (the memory condition keeps a receiver that silently skips frames out of this
+                // clause: 4096 frames need at least 18 B each in the tightest representation)
+                if accepted_since_boundary > 4096 && live - fresh > 18 * 4096 + 1024 {
+                    return fail(
+                        prop,
+                        "C19.cap",
+                        format!(
+                            "{} frames were taken into one packet without a delivery or reassembly error; a packet has at most 4096 frames (the receiver holds {} bytes)",
+                            accepted_since_boundary, live
+                        ),
+                        sig("more-than-4096-frames-in-one-packet"),
                     );
                 }
                 if live > fresh {
@@ -984,6 +1079,11 @@ pub fn run_c19(sim: &Sim, prop: &str, tier: Tier) -> Outcome {
         }
     }
     sim.count_n("polls", polls as u64);
+    let hard = wire.borrow().hard_errors;
+    if hard > 0 {
+        sim.count_n("device_read_errors", hard);
+        sim.probe("history_with_device_read_errors");
+    }
     if max_between > 4096 {
         sim.probe("held_over_4k_for_large_packet");
     }
